@@ -23,7 +23,12 @@ RULE = ("the pipelines of C02 (diamonds, tuple-output nodes, shared parameters, 
         "(inside one construct_dag() block, or outside with cache=True functions; same / changed root values, "
         "surplus / missing keywords, evaluation in between; keyword values that are deferred results of earlier "
         "requests - bare, inside lists / tuples, nested two levels deep - with the recorded edges compared to the "
-        "dependencies read off the stored arguments of every node); non-trivial = "
+        "dependencies read off the stored arguments of every node) + HISTORIES of phases on one pipeline object "
+        "(requests outside any block first / successive construct_dag() blocks, deferred results of earlier phases "
+        "supplied to later blocks bare or in containers; per block: node range, recorded edges, acyclicity, every "
+        "dependency recorded) + deferred objects that OUTLIVE their pipeline (built on a fresh pipeline inside a "
+        "factory, pipeline dropped and garbage-collected, optionally a cloudpickle round trip, then evaluate); "
+        "non-trivial = "
         ">= 2 needed functions or a tuple output; distinct by (pipeline, output, keywords, flags)")
 ASSUMPTIONS = list(c02.ASSUMPTIONS) + ["LRU cache of a lazy pipeline below its max_size (no eviction)"]
 TRUSTED = ["Model/Lazy.v mirrors pipefunc/lazy.py and the lazy branches of _base.py by hand; tie = per-run "
@@ -31,7 +36,7 @@ TRUSTED = ["Model/Lazy.v mirrors pipefunc/lazy.py and the lazy branches of _base
 
 
 def emit_case(c) -> str:
-    if c.get("kind") == "seq":
+    if c.get("kind") in ("seq", "blocks"):
         def kv(v):
             if isinstance(v, dict) and "res" in v:
                 return f"(KRes {cnat(v['res'])})"
@@ -42,8 +47,13 @@ def emit_case(c) -> str:
         def kwl(kw):
             return clist([f"({cstr(k)}, {kv(v)})" for k, v in kw])
 
-        reqs = clist([f"({cstr(o)}, {kwl(kw)}, {cbool(full)}, {cbool(now)})" for o, kw, full, now in c["reqs"]])
-        return f"(CSeq {pipegen.pipeline_lit(c['p'])} {cbool(c['dag'])} {reqs})"
+        def rql(reqs):
+            return clist([f"({cstr(o)}, {kwl(kw)}, {cbool(full)}, {cbool(now)})" for o, kw, full, now in reqs])
+
+        if c["kind"] == "blocks":
+            phases = clist([f"({cbool(dag)}, {rql(reqs)})" for dag, reqs in c["phases"]])
+            return f"(CBlocks {pipegen.pipeline_lit(c['p'])} {phases})"
+        return f"(CSeq {pipegen.pipeline_lit(c['p'])} {cbool(c['dag'])} {rql(c['reqs'])})"
     return (f"(CLazy {pipegen.pipeline_lit(c['p'])} {cstr(c['o'])} {pipegen.alist_lit(c['kw'])} "
             f"{cbool(c['full'])} {cbool(c['dag'])})")
 
@@ -141,14 +151,130 @@ def _run_seq(c):
     return [statuses, log0, values, log.read(), _graph_obs(tg, with_deps=True) if tg is not None else None]
 
 
+def _run_blocks(c):
+    """ONE lazy pipeline object, several phases: requests outside any block / inside successive construct_dag() blocks;
+    deferred results of earlier phases are supplied to later ones.  Nodes are numbered in creation order over the whole
+    history (every _LazyFunction created is recorded), so the graphs of the blocks can be compared with each other."""
+    import contextlib
+
+    from pipefunc.lazy import _LazyFunction, construct_dag, evaluate_lazy
+
+    try:
+        b = pipegen.build(c["p"], lazy=True)
+    except Exception:  # noqa: BLE001
+        return ["bad-case"]
+    pl, log = b.pipeline, b.log
+    created = []
+    orig_init = _LazyFunction.__init__
+
+    def rec_init(self, *a, **k):
+        orig_init(self, *a, **k)
+        created.append(self)
+
+    results, blocks, nreq = [], [], 0
+    _LazyFunction.__init__ = rec_init
+    try:
+        for dag, reqs in c["phases"]:
+            lo = len(created)
+            with (construct_dag() if dag else contextlib.nullcontext()) as tg:
+                def mat(v):
+                    if isinstance(v, dict) and "res" in v:
+                        j = v["res"]
+                        ok = j < len(results) and not isinstance(results[j], Err) and not flat[j][2]
+                        return results[j][1] if ok else "none"
+                    if isinstance(v, dict):
+                        items = [mat(x) for x in v["list"]]
+                        return tuple(items) if v.get("tuple") else items
+                    return v
+
+                flat = [r for _d, rs in c["phases"] for r in rs]
+                for o, kw, full, now in reqs:
+                    try:
+                        r = pl.run(o, full_output=full, kwargs={k: mat(v) for k, v in kw})
+                    except Exception as e:  # noqa: BLE001
+                        results.append(Err(e))
+                        continue
+                    results.append(("ok", r))
+                    if now:
+                        try:
+                            evaluate_lazy(r)
+                        except Exception:  # noqa: BLE001
+                            pass
+            if dag:
+                blocks.append((lo, len(created), tg))
+    finally:
+        _LazyFunction.__init__ = orig_init
+    log0 = log.read()
+    values = []
+    for r in results:
+        if isinstance(r, Err):
+            values.append(None)
+            continue
+        try:
+            values.append(Ok(_val(evaluate_lazy(r[1]))))
+        except Exception as e:  # noqa: BLE001
+            values.append(Err(e))
+    statuses = [r if isinstance(r, Err) else "ok" for r in results]
+    pos = {id(x): k for k, x in enumerate(created)}
+    labels = []
+    for lf in created:
+        name = getattr(lf.func, "__name__", None)
+        labels.append(name if name is not None and not lf.args else "pick:" + str(lf.args[1]))
+
+    def walk(v, acc):
+        if isinstance(v, _LazyFunction):
+            acc.add(pos.get(id(v), 10**6))
+        elif isinstance(v, (list, tuple, set)):
+            for x in v:
+                walk(x, acc)
+        elif isinstance(v, dict):
+            for x in v.values():
+                walk(x, acc)
+
+    deps = []
+    for lf in created:
+        a = set()
+        for v in [*lf.args, *lf.kwargs.values()]:
+            walk(v, a)
+        deps.append(sorted(a))
+    bl = []
+    for lo, hi, tg in blocks:
+        def node(i, lo=lo, tg=tg):
+            if i in tg.mapping:
+                return pos.get(id(tg.mapping[i]), 10**6)
+            cands = [k for k, x in enumerate(created[:lo]) if x._id == i]      # an object of an earlier phase
+            return cands[-1] if cands else 10**6
+        bl.append([lo, hi, sorted([node(a), node(b_)] for a, b_ in tg.graph.edges)])
+    return [statuses, log0, values, log.read(), [labels, bl, deps]]
+
+
 def run_impl(c):
     from pipefunc.lazy import construct_dag, evaluate_lazy
 
     if c.get("kind") == "seq":
         return _run_seq(c)
+    if c.get("kind") == "blocks":
+        return _run_blocks(c)
 
+    drop = c.get("drop")
+    tmp = None
     try:
-        b = pipegen.build_cached(c["p"], slot="lazy", lazy=True)
+        if drop:
+            # the deferred object outlives its pipeline: built inside a factory on a FRESH pipeline object (no function
+            # of it has been called), the pipeline is dropped and collected before evaluate(); "pickle": the deferred
+            # object additionally goes through a cloudpickle round trip (calls are then logged to a file)
+            flog = None
+            if drop == "pickle":
+                import os
+                import tempfile
+
+                from ..symfuncs import FileLog
+                fd_, tmp = tempfile.mkstemp(prefix="c18log")
+                os.close(fd_)
+                flog = FileLog(tmp)
+            b = pipegen.build(c["p"], log=flog, lazy=True)
+        else:
+            b = pipegen.build_cached(c["p"], slot="lazy", lazy=True)
     except Exception:  # noqa: BLE001
         return ["bad-case"]
     pl, log = b.pipeline, b.log
@@ -163,6 +289,14 @@ def run_impl(c):
     except Exception as e:  # noqa: BLE001
         return [Err(e)]
     log0 = log.read()
+    if drop:
+        import gc
+        del pl, b
+        gc.collect()
+        if drop == "pickle":
+            import cloudpickle
+            r = cloudpickle.loads(cloudpickle.dumps(r))
+            gc.collect()
 
     def ev():
         try:
@@ -184,6 +318,10 @@ def run_impl(c):
             name = getattr(lf.func, "__name__", None)
             labels.append(name if name is not None and not lf.args else "pick:" + str(lf.args[1]))
         g = [labels, sorted([pos[a], pos[b]] for a, b in tg.graph.edges)]
+    if tmp is not None:
+        import os
+        with __import__("contextlib").suppress(OSError):
+            os.unlink(tmp)
     return ["ok", log0, v1, log1, v2, log2, g]
 
 
@@ -204,6 +342,9 @@ def generate(rng, tier, mult):
             for tag, kw in c02.calls_for(rng, pd, o, budget=2 if tier == "quick" else 4):
                 cases.append({"p": pd, "o": o, "kw": kw, "full": rng.random() < 0.35, "dag": rng.random() < 0.5,
                               "tag": tag})
+                if rng.random() < 0.3:      # the same request, but the deferred object outlives its pipeline
+                    cases.append({"p": pd, "o": o, "kw": kw, "full": rng.random() < 0.35, "dag": rng.random() < 0.3,
+                                  "tag": tag, "drop": rng.choice(["gc", "gc", "pickle"])})
         if k >= n_diamonds and rng.random() < 0.5:
             cases += _seq_cases(rng, pd, 2)
     for _ in range((12 if tier == "quick" else 150) * mult):
@@ -283,6 +424,23 @@ def _seq_cases(rng, pd, n):
             rng.shuffle(kw)
             reqs.append([o, kw, rng.random() < 0.2, rng.random() < 0.3])
         cases.append({"kind": "seq", "p": q, "dag": dag, "reqs": reqs})
+        if len(reqs) >= 2:
+            # the same requests as a HISTORY of phases: outside any block first / successive construct_dag() blocks;
+            # the later requests get deferred results of earlier phases (bare or in containers)
+            cut = rng.randint(1, len(reqs) - 1)
+            first_dag = rng.random() < 0.5
+            phases = [[first_dag, reqs[:cut]], [True, reqs[cut:]]]
+            if len(reqs) - cut >= 2 and rng.random() < 0.4:
+                phases = [[first_dag, reqs[:cut]], [True, reqs[cut:cut + 1]], [True, reqs[cut + 1:]]]
+            import copy
+            phases = copy.deepcopy(phases)
+            later = [r for _d, rs in phases[1:] for r in rs if r[1]]
+            if later and rng.random() < 0.8:        # make sure an object of an EARLIER phase is supplied to a later block
+                r = rng.choice(later)
+                ref = {"res": rng.randrange(cut)}
+                r[1][rng.randrange(len(r[1]))][1] = rng.choice([ref, {"list": [ref, "k"], "tuple": rng.random() < 0.5},
+                                                                {"list": [{"list": [ref], "tuple": False}], "tuple": False}])
+            cases.append({"kind": "blocks", "p": q, "phases": phases})
     return cases
 
 
@@ -290,16 +448,21 @@ def nontrivial_key(c):
     fs = c["p"]["funcs"]
     if c.get("kind") == "seq":
         return ("seq", c["p"], c["dag"], c["reqs"])
+    if c.get("kind") == "blocks":
+        return ("blocks", c["p"], c["phases"])
     if len(fs) >= 2 or any(len(f["outs"]) > 1 for f in fs):
-        return (c["p"], c["o"], c["kw"], c["full"], c["dag"])
+        return (c["p"], c["o"], c["kw"], c["full"], c["dag"], c.get("drop"))
     return None
 
 
 def distribution(c):
+    if c.get("kind") == "blocks":
+        return {"kind": "blocks", "phases": "".join("D" if d else "o" for d, _r in c["phases"]),
+                "xref": sum(1 for _d, rs in c["phases"] for r in rs for _k, v in r[1] if isinstance(v, dict))}
     if c.get("kind") == "seq":
         return {"kind": "seq" + ("-dag" if c["dag"] else "-lru"), "nreq": len(c["reqs"]),
                 "cached": sum(1 for f in c["p"]["funcs"] if f.get("cached"))}
-    return {"nfuncs": len(c["p"]["funcs"]), "tag": c.get("tag", ""), "flags": f"{'F' if c['full'] else ''}{'D' if c['dag'] else ''}"}
+    return {"nfuncs": len(c["p"]["funcs"]), "tag": c.get("tag", ""), "flags": f"{'F' if c['full'] else ''}{'D' if c['dag'] else ''}", "drop": c.get("drop") or ""}
 
 
 def finding_id(c, impl_obs, kind):
@@ -314,6 +477,8 @@ def shrink(c):
         d = dict(c)
         d["p"] = {"funcs": fs[:j] + fs[j + 1:]}
         out.append(d)
+    if c.get("kind") == "blocks":
+        return out
     if c.get("kind") == "seq":
         for j in range(len(c["reqs"])):
             if len(c["reqs"]) > 1:
